@@ -151,6 +151,8 @@ Check(e) ==
                             /\ (e.nil = 1) <=> (N(S) = 0)
                             /\ N(S) > 0 => e.flags = Flags(R)
                             /\ PostEq(e, R, S.core, t.stale) /\ QryOK(e, R, t.stale)
+         \* C02: Run() from any point of a battle ends in the state the cycle loop ends in (on a finished battle: no change)
+         /\ Mode \in {"C02", "C15"} => LET R == RunW(S) IN (N(S) > 0 => e.flags = Flags(R)) /\ PostEq(e, R, S.core, t.stale)
     [] e.ev = "spawn" ->
          LET r == SpawnW(S, e.i, e.off) IN
          /\ e.panic = ""
